@@ -311,7 +311,10 @@ LoopEndViol(ev) ==
            ev.maxfut <= (LET S == {TaskMaxFut(W, Name(i)) : i \in SyncIds(ev)} IN IF S = {} THEN 0 ELSE Max(S)))
   \cup Chk("C45_AllInstancesSatisfied",
            \A i \in SyncIds(ev) : \A L \in Deps(W, Name(i), Pt(i)) : \A a \in Atoms(L.lhs) :
-              (a.abs /\ AtomKey(W, a, Pt(i)) \in done) => AtomKey(W, a, Pt(i)) \in SyncRec(ev, i).sat)
+              \* (an instance all of whose prerequisites are satisfied anyway - an OR alternative, a pre-initial
+              \*  dependency - is not touched: TaskPool.spawn_task only consults the completed absolute outputs for
+              \*  instances that still wait for something)
+              (a.abs /\ AtomKey(W, a, Pt(i)) \in done) => (AtomKey(W, a, Pt(i)) \in SyncRec(ev, i).sat \/ SyncRec(ev, i).preok))
   \* a stop point requested by command stays in effect (until the scheduler stops)
   \cup Chk("C43_StopPointKept", env.cmdStop # NoPoint => ev.stop_point = env.cmdStop)
   \cup Chk("C11_RetainedOnlyIfIncomplete",
